@@ -155,13 +155,13 @@ int SimpleString::AtoI(const char* str)
     char first_char = *str;
     if (first_char == '-' || first_char == '+') str++;
 
-    int  result = 0;
+    unsigned result = 0;
     for(; isDigit(*str); str++)
     {
         result *= 10;
-        result += *str - '0';
+        result += static_cast<unsigned>(*str - '0');
     }
-    return (first_char == '-') ? -result : result;
+    return (first_char == '-') ? static_cast<int>(0u - result) : static_cast<int>(result);
 }
 
 int SimpleString::StrCmp(const char* s1, const char* s2)
